@@ -2,6 +2,8 @@
 // ORIGINAL text wrapped in the plain-Rust headers given in unit.json (replay_wrappers).
 #![allow(dead_code, unused)]
 pub mod authorship { pub mod authorship_log { pub use crate::LineRange; } }
+use std::collections::HashMap as StdHashMap;
+use std::collections::{HashSet, BTreeSet};
 include!("@ITEMS@");
 use std::panic::{catch_unwind, AssertUnwindSafe};
 
@@ -56,6 +58,30 @@ fn chk(c: &mut Ctx, lines: &[u32]) {
         Err(p) => c.fail("region_split_uncommitted_ranges", "safety", input, p, "no panic".into()),
     }
 }
+// the three-way split: region split_classify on small line attribution sets
+fn chk_classify(c: &mut Ctx, las: &[(u32, u32, String)], unstaged: &[u32], hunks: Option<&[(u32, u32)]>) {
+    if !unstaged.windows(2).all(|w| w[0] < w[1]) || !las.iter().all(|l| l.0 <= l.1) { return; }
+    c.evaluated += 1;
+    let input = format!("C;{};{};{}", las.iter().map(|l| format!("{}-{}-{}", l.0, l.1, l.2)).collect::<Vec<_>>().join(" "), enc_v(unstaged),
+        match hunks { Some(h) => h.iter().map(|r| format!("{}-{}", r.0, r.1)).collect::<Vec<_>>().join(" "), None => "none".into() });
+    let lav: Vec<LineAttribution> = las.iter().map(|l| LineAttribution { start_line: l.0, end_line: l.1, author_id: l.2.clone(), overrode: None }).collect();
+    let mut ch: StdHashMap<String, Vec<LineRange>> = StdHashMap::new();
+    if let Some(h) = hunks { ch.insert("f".to_string(), h.iter().map(|r| if r.0 == r.1 { LineRange::Single(r.0) } else { LineRange::Range(r.0, r.1) }).collect()); }
+    let fp = "f".to_string();
+    let mut want_c: BTreeSet<(String, u32)> = BTreeSet::new(); let mut want_u: BTreeSet<(String, u32)> = BTreeSet::new();
+    for l in las { for w in l.0..=l.1 {
+        if unstaged.contains(&w) { want_u.insert((l.2.clone(), w)); }
+        else { let cl = w as i64 - unstaged.iter().filter(|&&u| u < w).count() as i64; if cl >= 0 { if let Some(h) = hunks { if h.iter().any(|r| r.0 as i64 <= cl && cl <= r.1 as i64) { want_c.insert((l.2.clone(), cl as u32)); } } } }
+    } }
+    match guarded(|| region_split_classify(&lav, unstaged.to_vec(), &ch, &fp, HashSet::new())) {
+        Ok((cm, um)) => {
+            let flat = |m: &StdHashMap<String, Vec<u32>>| -> BTreeSet<(String, u32)> { m.iter().flat_map(|(k, v)| v.iter().map(move |x| (k.clone(), *x))).collect() };
+            if flat(&cm) != want_c { c.fail("region_split_classify", "ensures#0", input.clone(), format!("committed {:?}", flat(&cm)), format!("committed {:?} (w not unstaged, c = w - #unstaged below w, c in the commit's added lines)", want_c)); return; }
+            if flat(&um) != want_u { c.fail("region_split_classify", "ensures#0", input, format!("carried over {:?}", flat(&um)), format!("carried over {:?} (the unstaged lines)", want_u)); }
+        }
+        Err(p) => c.fail("region_split_classify", "safety", input, p, "no panic (commit line = working-tree line - unstaged lines above it)".into()),
+    }
+}
 fn main() {
     std::panic::set_hook(Box::new(|_| {}));
     let a: Vec<String> = std::env::args().collect();
@@ -64,7 +90,18 @@ fn main() {
         let vals: [u32; 12] = [0, 1, 2, 3, 5, 6, 8, 9, 10, u32::MAX - 2, u32::MAX - 1, u32::MAX];
         for mask in 1u32..(1 << 12) { let v: Vec<u32> = (0..12).filter(|i| mask >> i & 1 == 1).map(|i| vals[i]).collect(); chk(&mut c, &v); }
         let mut g = Rng(a[3].parse::<u64>().unwrap_or(0).wrapping_mul(0x9E3779B97F4A7C15) ^ 0x94d049bb133111eb);
+        // classification: line attributions over lines 1..8, unstaged subsets, one hunk list
+        for mask in 0u32..(1 << 6) {
+            let un: Vec<u32> = (0..6).filter(|i| mask >> i & 1 == 1).map(|i| i as u32 + 1).collect();
+            for s1 in 1u32..6 { for e1 in s1..7 { chk_classify(&mut c, &[(s1, e1, "ai1".into())], &un, Some(&[(1, 2), (4, 4)])); chk_classify(&mut c, &[(s1, e1, "ai1".into()), (e1 + 1, e1 + 2, "ai2".into())], &un, Some(&[(2, 5)])); } }
+            chk_classify(&mut c, &[(1, 6, "ai1".into())], &un, None);
+        }
         for _ in 0..20000 { let base = if g.below(4) == 0 { u32::MAX - 40 } else { g.below(50) as u32 }; let n = 1 + g.below(14) as usize; let mut v = vec![]; let mut cur = base; for _ in 0..n { let step = 1 + if g.below(2) == 0 { 0 } else { g.below(4) as u32 }; match cur.checked_add(step) { Some(nx) => { cur = nx; v.push(cur); } None => break } } chk(&mut c, &v); }
+    } else if a[3].starts_with("C;") {
+        let p: Vec<&str> = a[3].split(';').collect();
+        let las: Vec<(u32, u32, String)> = p[1].split_whitespace().map(|t| { let q: Vec<&str> = t.split('-').collect(); (q[0].parse().unwrap(), q[1].parse().unwrap(), q[2].to_string()) }).collect();
+        let hs: Vec<(u32, u32)> = if p[3] == "none" { vec![] } else { p[3].split_whitespace().map(|t| { let q: Vec<u32> = t.split('-').map(|y| y.parse().unwrap()).collect(); (q[0], q[1]) }).collect() };
+        chk_classify(&mut c, &las, &dec_v(p[2]), if p[3] == "none" { None } else { Some(&hs) });
     } else { chk(&mut c, &dec_v(&a[3])); }
     println!("DONE evaluated={}", c.evaluated);
 }
